@@ -146,10 +146,39 @@ def check_key(ctx, key):
                   lambda: "Key(%r).signature = %r, expected %d" % (key, getattr(k, "signature", None), n))
         ctx.check(getattr(k, "name", None) == name, "Key/name",
                   lambda: "Key(%r).name = %r, expected %r" % (key, getattr(k, "name", None), name))
+        # copies of a Key (copy, deepcopy, pickle) report the same; making them changes neither this key nor another one held
+        import copy
+        import pickle
+        held = ctx.ok("Key", keys.Key, "C" if key != "C" else "G")
+        held_attrs = None if failed(held) else (held.key, held.mode, held.signature, held.name)
+        for how, mk in (("copy.copy", lambda: copy.copy(k)), ("copy.deepcopy", lambda: copy.deepcopy(k)), ("pickle", lambda: pickle.loads(pickle.dumps(k)))):
+            c = ctx.ok("Key/" + how, mk)
+            if not failed(c):
+                ctx.check((getattr(c, "key", None), getattr(c, "mode", None), getattr(c, "signature", None), getattr(c, "name", None)) == (key, mode, n, name),
+                          "Key/copy", lambda: "%s of Key(%r): key %r mode %r signature %r name %r" % (how, key, getattr(c, "key", None), getattr(c, "mode", None), getattr(c, "signature", None), getattr(c, "name", None)))
+            ctx.check((k.key, k.mode, k.signature, k.name) == (key, mode, n, name), "Key/changed-by-copying", lambda: "Key(%r) after %s: %r" % (key, how, (k.key, k.mode, k.signature, k.name)))
+            ctx.check(held_attrs is None or (held.key, held.mode, held.signature, held.name) == held_attrs, "Key/another-key-changed-by-copying",
+                      lambda: "a held %r reads %r after %s of Key(%r)" % (held_attrs, (held.key, held.mode, held.signature, held.name), how, key))
+        again = ctx.ok("Key", keys.Key, "C" if key != "C" else "G")
+        if not failed(again) and not failed(c if "c" in dir() else FAILED):
+            ctx.check((c.key, c.signature) == (key, n), "Key/copy-changed-by-a-later-Key", lambda: "copy of Key(%r) reads %r after another Key was built" % (key, (c.key, c.signature)))
     ctx.note_case(n != 0, ["key:minor" if minor else "key:major", "signature:%+d" % n])
 
 
 # ---- signature numbers -----------------------------------------------------------------------------------
+def check_signum_types(ctx, n):
+    """the signature number given as another integer type (numpy integers, as they come out of array code)"""
+    import numpy
+    for ty in (numpy.int64, numpy.int32, numpy.int8, numpy.intc):
+        g = ctx.ok("get_key/" + ty.__name__, keys.get_key, ty(n))
+        if not failed(g):
+            ctx.check(isinstance(g, (list, tuple)) and list(g) == list(T.KEYS[n]), "get_key/integer-type",
+                      lambda: "get_key(%s(%d)) -> %r, expected %r" % (ty.__name__, n, g, T.KEYS[n]))
+    for ty in (numpy.int64, numpy.int8):
+        ctx.raises("get_key/out-of-range/" + ty.__name__, (RangeError,), keys.get_key, ty(n + 15 if n >= 0 else n - 15))
+    ctx.note_case(True, ["signum:integer-types"])
+
+
 def check_signum(ctx, n):
     if isinstance(n, list):  # ["big", base, exponent, sign]: an integer too long to be written out in a replay file
         n = n[3] * n[1] ** n[2]
@@ -297,6 +326,7 @@ def check_key_lists(ctx, which):
 
 
 CHECKS["key_lists"] = check_key_lists
+CHECKS["signum_types"] = check_signum_types
 
 
 def sub_keys(ctx, shard, n):
@@ -315,6 +345,7 @@ def sub_order(ctx, shard, n):
 def sub_signums(ctx, shard, n):
     ctx.exhaustive("signature numbers", "-20..20", 41)
     ctx.enumerate("signum", check_signum, range(-20, 21))
+    ctx.enumerate("signum_types", check_signum_types, range(-7, 8))
     ctx.given("signum", check_signum, st.integers() | st.integers(-40, 40), 300 if ctx.quick else 5000)
     # integers far outside every machine range (hundreds to tens of thousands of digits)
     ctx.enumerate("signum", check_signum, [["big", b, e, sg] for b in (2, 10) for e in (64, 400, 1024, 4300, 5000, 20000) for sg in (1, -1)])
